@@ -14,11 +14,13 @@ RULE = (
     "Generated sub-programs (C01 grammar: values, nested jobs, control forms, failures) evaluated "
     "through subrun(expr, executor='default', new_execution=True/False) with the real local thread "
     "executor and a sub-scheduler recording into the same SQLite file, with caching on or off, alone, "
-    "inside a task, or after a directly evaluated copy, then executed a second time on the same backend. Oracle: "
+    "inside a task, or after a directly evaluated copy, then executed a second (third) time on the same "
+    "backend, in the same or in the other mode. Oracle: "
     "(1) the result or error (type, message) equals what the reference interpreter gives for direct "
     "evaluation, in both executions; (2) with new_execution=False the root job of the sub-workflow is "
     "recorded with the redun.subrun_root_task job as parent and in the same execution, with "
-    "new_execution=True it belongs to another execution; (3) every cache lookup made for "
+    "new_execution=True it belongs to another execution (at least two Executions appear), and the first "
+    "execution that asks for a mode is never answered from the other mode's cache entry; (3) every cache lookup made for "
     "redun.subrun_root_task (observed by wrapping the backend's check_cache) is restricted to CSE / "
     "ultimate results and never answers with a single-reduction entry. Non-trivial = sub-program with "
     ">=2 jobs, or a re-execution."
@@ -45,10 +47,25 @@ def cases(draw):
         prog = ["seq", [body, sub]]
     else:
         prog = ["list", [sub]]
-    return {"prog": prog, "new_execution": new_exec, "cache": draw(st.booleans()), "shape": shape, "rerun": draw(st.booleans())}
+    rerun = draw(st.booleans())
+    # executions of the same program on the same backend; a later one may use the other mode
+    modes = [new_exec] + ([draw(st.sampled_from([new_exec, new_exec, not new_exec]))] if rerun else [])
+    if rerun and draw(st.integers(0, 3)) == 0:
+        modes.append(draw(st.booleans()))
+    return {"prog": prog, "new_execution": new_exec, "cache": draw(st.booleans()), "shape": shape, "rerun": rerun, "modes": modes}
 
 
-def run_real(case, backend, path, log):
+def with_mode(prog, mode):
+    if isinstance(prog, list):
+        if len(prog) == 4 and prog[0] == "subrun":
+            return ["subrun", prog[1], mode, prog[3]]
+        return [with_mode(x, mode) for x in prog]
+    if isinstance(prog, dict):
+        return {k: with_mode(v, mode) for k, v in prog.items()}
+    return prog
+
+
+def run_real(case, backend, path, log, prog=None):
     import vf_tasks
     from redun import Scheduler
     from redun.config import Config
@@ -69,7 +86,7 @@ def run_real(case, backend, path, log):
     backend.check_cache = spy
     try:
         try:
-            return ("ok", sched.run(vf_tasks.node(P.fresh(case["prog"]), {}), cache=case["cache"]))
+            return ("ok", sched.run(vf_tasks.node(P.fresh(prog or case["prog"]), {}), cache=case["cache"]))
         except Exception as e:  # noqa: BLE001 - the program's failure is an outcome
             return ("err", e)
     finally:
@@ -86,9 +103,11 @@ def oracle(ctx: Ctx, case):
     backend = dbx.open_backend(path)
     info = {"subjobs": 0}
     try:
-        for attempt in range(2 if case["rerun"] else 1):
+        modes = case.get("modes") or [case["new_execution"]] * (2 if case["rerun"] else 1)
+        seen_exec: set = set()
+        for attempt, mode in enumerate(modes):
             log = []
-            kind, payload = run_real(case, backend, path, log)
+            kind, payload = run_real(case, backend, path, log, with_mode(case["prog"], mode))
             if not P.outcome_in(kind, payload, exp):
                 raise Violation(f"subrun-result-differs:{'rerun' if attempt else 'first'}",
                                 f"execution {attempt}: through subrun got {kind} {payload!r}; direct evaluation gives "
@@ -99,20 +118,29 @@ def oracle(ctx: Ctx, case):
                                     f"with allowed results {allowed}", case)
             session = backend.session
             session.expire_all()
-            sub_root_jobs = [j for j in session.query(Job).all() if j.task and j.task.fullname == "redun.subrun_root_task"]
+            new_execs = {e.id for e in session.query(Execution).all()} - seen_exec
+            seen_exec |= new_execs
+            first_in_mode = mode not in modes[:attempt]
+            sub_root_jobs = [j for j in session.query(Job).all() if j.task and j.task.fullname == "redun.subrun_root_task"
+                             and j.execution_id in new_execs]
             for sj in sub_root_jobs:
                 kids = session.query(Job).filter(Job.parent_id == sj.id).all()
                 info["subjobs"] += len(kids)
-                if not case["new_execution"] and not sj.cached and sj.call_hash and sj.status == "DONE":
+                if first_in_mode and sj.cached and kind == "ok" and attempt > 0:
+                    raise Violation(f"subrun-mode-ignored-by-cache:{'new' if mode else 'extend'}-after-{'extend' if mode else 'new'}",
+                                    f"execution {attempt} asks for new_execution={mode} for the first time on this backend, "
+                                    f"yet redun.subrun_root_task was answered from the cache entry of the other mode "
+                                    f"({'no new Execution is recorded' if mode else 'the sub-workflow jobs are not recorded under the calling job'})", case)
+                if not mode and not sj.cached and sj.call_hash and sj.status == "DONE":
                     if not kids:
                         raise Violation("subrun-jobs-not-under-caller", "new_execution=False: no Job row has the subrun_root_task job as parent", case)
                     for kjob in kids:
                         if kjob.execution_id != sj.execution_id:
                             raise Violation("subrun-jobs-other-execution", "new_execution=False: sub-workflow job recorded in another execution", case)
-                if case["new_execution"] and kids:
+                if mode and kids:
                     raise Violation("subrun-new-execution-linked", "new_execution=True: sub-workflow jobs hang under the calling job", case)
-            if case["new_execution"] and kind == "ok":
-                if session.query(Execution).count() < 2:
+            if mode and kind == "ok" and first_in_mode:
+                if len(new_execs) < 2:
                     raise Violation("subrun-no-new-execution", "new_execution=True but no additional Execution was recorded", case)
     finally:
         dbx.discard_backend(backend)
@@ -126,11 +154,11 @@ def run_case(ctx: Ctx, case) -> None:
     finally:
         f = P.features(case["prog"])
         ctx.case(case, labels=[f"new_execution:{case['new_execution']}", f"cache:{case['cache']}", f"shape:{case['shape']}",
-                               f"rerun:{case['rerun']}"], nontrivial=f["jobdepth"] >= 2 or case["rerun"])
+                               f"rerun:{case['rerun']}", "mode-flip" if len(set(case.get("modes") or [0])) > 1 else "one-mode"], nontrivial=f["jobdepth"] >= 2 or case["rerun"])
 
 
 def check(ctx: Ctx) -> None:
-    ctx.given(cases(), lambda c: run_case(ctx, c), ctx.n(40, 1200), shrink=False)
+    ctx.given(cases(), lambda c: run_case(ctx, c), ctx.n(80, 1600), shrink=False)
 
 
 def replay(ctx: Ctx, case) -> None:
